@@ -322,7 +322,23 @@ def _open_tty():
     return os.fdopen(sl, "w", encoding="utf-8", errors="surrogatepass", newline=""), m, th, chunks
 
 
-def run_main(args, real_files: bool = False, tty: bool = False):
+class _Stdin:
+    """sys.stdin stand-in: main() reads the bytes of a '-' argument from sys.stdin.buffer."""
+    def __init__(self, data: bytes):
+        import io
+        self.buffer = io.BytesIO(data)
+
+    def read(self, *a):
+        return self.buffer.read(*a).decode("utf-8", "replace")
+
+    def isatty(self):
+        return False
+
+    def fileno(self):
+        raise OSError("no file descriptor")
+
+
+def run_main(args, real_files: bool = False, tty: bool = False, stdin: bytes = None):
     """graphtage.__main__.main(argv) in-process, observed at the boundary a user sees: stdout text, stderr text,
     return value / exit status, escaped exception.  Every call behaves like a fresh process as far as logging
     goes (basicConfig is effective only once per process, so the root handlers are cleared first)."""
@@ -347,7 +363,9 @@ def run_main(args, real_files: bool = False, tty: bool = False):
         paths = (po, pe)
     else:
         out, err = KeepStringIO(), KeepStringIO()
-    old_out, old_err = sys.stdout, sys.stderr
+    old_out, old_err, old_in = sys.stdout, sys.stderr, sys.stdin
+    if stdin is not None:
+        sys.stdin = _Stdin(stdin)
     root = logging.getLogger()
     saved = root.handlers[:]
     root.handlers = []
@@ -363,7 +381,7 @@ def run_main(args, real_files: bool = False, tty: bool = False):
         except BaseException as ex:  # noqa
             exc = ex
     finally:
-        sys.stdout, sys.stderr = old_out, old_err
+        sys.stdout, sys.stderr, sys.stdin = old_out, old_err, old_in
         for h in root.handlers:
             try:
                 h.close()
